@@ -122,6 +122,7 @@ CLAIMED["C14"] = dict(
          "rejected input returns no selector. policy.FromIPLD / statementFromIPLD / statementsFromIPLD are verified (mutual recursion with a termination measure on the node) to return one non-nil statement per list element, "
          "carrying exactly the operator of that element, or an error.",
     note="Not proved (honest gap): adjacency of the middle tokens (that consecutive tokens abut — would need a concatenation spec over the token slice) and therefore String(Parse(s)) == s; "
-         "policy write-back (ToIPLD after FromIPLD is deep-equal) and behavioural equality after a round trip are not under contract. "
+         "policy write-back is under contract at the level of shape (statementsToIPLD / statementToIPLD: one [op, ...] tuple per statement, carrying the statement's operator, mutual recursion with a measure on finite statement trees), "
+         "which with the decoder's shape contract gives preservation of lengths and operators across a round trip; deep equality of the leaf values and behavioural equality after a round trip are not under contract. "
          "Assumed: what the three regular expressions guarantee about a matching text (first characters, presence of ':') — read off the patterns and stated as `given` clauses; strconv / strings helpers through stubs.",
     design="DESIGN.md §3 C14, §7")
